@@ -26,6 +26,17 @@ CLAIMED = {
    "For each generated document the fault space named by the property (index k of the failing call) is enumerated completely in each mode and the scripted workload is re-run; the oracle compares every call's result with the fault-free result or requires an error that wraps the injected one and is not IsMalformed. Exhaustive in k per document, seeded over documents and configurations.",
    "Trusts that the scripted workload (open, Get, DecodeStream+drain, cached Decode, meta data) represents the calls named in the statement; only ReadAt/Write/Seek are failed; Flush of self-flushing sinks is never failed. Write-side programs with more than 600 sink operations are sampled with a stride (counted by a probe).",
    "DESIGN.md section 4 C19"),
+
+ "C03": ("exploration",
+   "deterministic simulation: seeded write programs on a simulated disk; the persisted image is validated by an independent strict PDF parser (fsck-after-workload) and its extracted values compared with the model",
+   "Seeded search over write programs x versions x output modes x sink kinds; after Close the disk image must be accepted by strictpdf (stdlib-only parser written from ISO 32000: 20-byte xref lines, W-encoded xref streams with PNG-Up, one entry per number, exact 'N G obj' offsets, /Length framing direct and indirect, object stream /N /First tables) and yield the written values.",
+   "Trusts strictpdf as the reading of the specification (it checks exactly the clauses of the statement and nothing more; e.g. it does not require the xref stream to list itself). Stream data behind LZW/TIFF predictor is decoded with the library's filter on independently extracted raw bytes.",
+   "DESIGN.md section 4 C03"),
+ "C20": ("fault_enumeration",
+   "deterministic simulation with exhaustive crash-point enumeration: per seeded document every prefix length 0..len of the persisted image and 9 xref-damage variants are scanned; true object extents from the independent strict parser",
+   "For each generated document every truncation offset is enumerated (a crash at any byte of the persisted image) plus overwritten xref/startxref ranges; the oracle requires SequentialScan to succeed whenever a complete object exists, every complete object to be listed at its true offset, not broken, and FileInfo.Read to yield the written value.",
+   "Object extents come from strictpdf on the intact image. Documents are restricted as the quantifier says (no encryption, no object streams, no EOL bytes in strings or bodies). Streams whose indirect /Length object is cut off are compared byte-wise only when the extent is unambiguous.",
+   "DESIGN.md section 4 C20"),
 }
 
 PENDING = {}
@@ -73,7 +84,7 @@ def main():
     print("claimed:", sorted(CLAIMED), "n/a:", [x["property_id"] for x in na])
 
 PENDING = {p: "not claimed yet: the simulation harness for this property is still under construction (see DESIGN.md section 4); it is applicable and will be claimed once its check is sound on the unchanged tree" for p in
-           ["C03", "C04", "C05", "C06", "C08", "C11", "C15", "C16", "C18", "C20"]}
+           ["C04", "C05", "C06", "C08", "C11", "C15", "C16", "C18"]}
 
 if __name__ == "__main__":
     main()
